@@ -253,4 +253,4 @@ def run(acc, tier):
         engine.pmap(acc, shard_generated, extra=(40, 4))
     else:
         engine.pmap(acc, shard_exhaustive, extra=(0,))
-        engine.pmap(acc, shard_generated, extra=(500, 5))
+        engine.pmap(acc, shard_generated, extra=(250, 5))
